@@ -242,11 +242,14 @@ class Server(object):
             app.pings.append((self.sim.seq, bytes(body)))
             if st.get('pong', True):
                 delay = st.get('pong_delay_us', 0)
-                if delay:
-                    self.sim.after(delay, lambda: self._send(
-                        app, 1, bytes(body), 'pong'), 'pong-delay')
-                else:
+                def pong():
                     self._send(app, 1, bytes(body), 'pong')
+                    if st.get('close_after_pong'):
+                        self._close(app)
+                if delay:
+                    self.sim.after(delay, pong, 'pong-delay')
+                else:
+                    pong()
         else:
             app.errors.append('unexpected status frame id %d' % pid)
 
